@@ -281,7 +281,7 @@ def writer_delegation(ctx, rule):
         if len(fns) != 1:
             ctx.violation(rule, "%s|%s" % (rule, meth), "no unique io::Write::%s for %s" % (meth, wadt))
             continue
-        outs = [o for o in ctx.px(fns[0]) if o.kind == "return"]
+        outs = [o for o in ctx.px(fns[0], inline=helper_inline(ctx, own=(wadt,)), key="helpers") if o.kind == "return"]
         seen = set()
         for o in outs:
             st0 = ("field", ("deref", ("param", 1)), "0")
@@ -303,6 +303,15 @@ def writer_delegation(ctx, rule):
                 continue
             res = calls[0]["callee"].get("res_full") or ""
             through_gz = "GzEncoder" in res.split(" as ")[0]
+            if not calls[0]["callee"].get("res_path") or "dyn " in res.split(" as ")[0]:
+                # a call through `&mut dyn Write`: the receiver is a reference into the state enum; the variant it points into
+                # tells which writer that is
+                rc = calls[0]["args"][0]
+                vpath = [el[1] for el in (rc[2] if isinstance(rc, tuple) and rc[0] == "ref" else ()) if el[0] == "as"]
+                through_gz = bool(vpath) and vpath[0] == G["gz"]
+                if not vpath:
+                    ctx.violation(rule, "%s|%s|%s|dyn-target" % (rule, meth, var), "UNRECOGNISED receiver of a dynamic %s call: %s" % (meth, short(rc, 60)))
+                    continue
             want_gz = var == G["gz"]
             if through_gz != want_gz:
                 ctx.violation(rule, "%s|%s|%s|target" % (rule, meth, var), "%s in state %s goes %s the gzip encoder" % (meth, var, "through" if through_gz else "around"),
